@@ -2,11 +2,20 @@
 
 Theorems: lean/PersimVerif/Props/C20.lean about lean/PersimVerif/Model/Plot.lean (a pure function from the
 arguments of plot_diagrams / bottleneck_matching / wasserstein_matching to a list of abstract artists).
-Tie: the real functions are called on an Agg figure with TWO axes (the other one, or the target itself,
-being pyplot's current axes); every artist, limit, label, title and legend text is read back from BOTH axes
+Tie: the real functions are called on an Agg figure with TWO axes (ax given with the OTHER axes current, ax given
+and itself current, or ax=None with the target current); every artist, limit, label, title and legend text is read back from BOTH axes
 and compared with the model executed at Rat (driver ops `plot.dgms`, `plot.match`, `plot.land.*`).
 On a disagreement the clauses of the statement are evaluated directly on the read-back artists (independent
-Python, no model) — that is the failing-input search.
+Python, no model) — that is the failing-input search.  The clauses judge only what the statement fixes: scatter
+coordinates to single precision RELATIVE TO EACH COORDINATE, infinite deaths on one drawn horizontal line inside the
+limits (recognised by position, not by label), limits, title, the labels the caller supplied, legend drawn iff requested
+and containing the supplied labels in order; matching plots: every row that is not (-1,-1) has its own line with the
+right end points, no further line joins a point to a point of the other diagram or to its own foot (other lines -
+diagonal, infinity line, decoration - are ignored whatever their style), SOME row of maximal cost is styled differently
+from all rows of smaller cost (ties at the maximum: any or all may be marked).  Correspondence only (compared with the
+model, never a claimed failing input): the literal texts the code chooses ($H_i$, the infinity entry, Birth / Death /
+Lifetime, lambda_k), success on requests outside the quantifier (plot_only or rows outside the diagrams), the exact
+styles, and everything about the 2-D landscape plots, which the statement does not mention.
 """
 import math
 import warnings
@@ -19,7 +28,7 @@ RULE = ("diagram plots: 1-4 diagrams (single array or list) of 0-6 points from l
         "uniform modes, infinite deaths p=0.2, empty diagrams, every combination of plot_only (None, [], in-range, "
         "negative, out-of-range), labels (None, string incl. strings shorter than the indices, list of equal/shorter/"
         "longer length), title, xy_range (None, [], proper, degenerate, inverted), diagonal, lifetime, legend, ax given "
-        "(other axes current) or None; integer-valued diagrams travel as int64 arrays half of the time; matching plots: "
+        "(other axes current 55%, the given axes itself current 17%) or None; integer-valued diagrams travel as int64 arrays half of the time; matching plots: "
         "diagram pairs of 0-6 points (either side empty), in 45% of the pairs with 1-3 points of infinite death inserted anywhere "
         "(also a diagram of infinite points only), the "
         "matching RETURNED by the real bottleneck/wasserstein(matching=True) for exactly these diagrams, optionally with added (-1,-1), i=-1, "
@@ -33,8 +42,10 @@ ASSUMPTIONS = [
     "both drop the other points before numbering; C06 owns that); plot_only / matching indices are Python ints",
     "label lists shorter than the number of plotted diagrams make `zip` drop diagrams (modelled; outside the statement's "
     "quantifier: one label per diagram is the documented contract)",
-    "numeric comparison 1e-6 relative to the largest magnitude in the figure (the code works in float32); scatter "
-    "coordinates that are pure float32 casts are compared exactly against the model's round-to-nearest-even cast",
+    "comparison with the MODEL: 1e-6 relative to the largest magnitude in the figure (the code works in float32), scatter "
+    "coordinates that are pure float32 casts exactly against the model's round-to-nearest-even cast; the statement's CLAUSES: "
+    "1e-6 relative to the coordinate itself (|b|; |d|; |b|+|d| for a lifetime or a segment end), the figure's scale only for "
+    "figure-level quantities (limits, height of the infinity line)",
     "matplotlib contract: an artist added to an Axes is drawn on it; Axes.legend lists labelled artists in insertion order; "
     "set_xlim/set_ylim store what they are given unless both ends coincide (then matplotlib widens them: checked as containment)",
     "fresh axes (no pre-existing artists); `show`, `size`, `ax_color`, `colormap` only checked as read-back style, not modelled",
@@ -95,12 +106,13 @@ def pristine(rb):
 
 
 def with_axes(given, fn):
-    """figure with two axes, the OTHER one current; call fn(ax_argument); read both back.
-    given=True: ax=target (not current); given=False: ax=None (target = pyplot's current axes)"""
+    """figure with two axes; call fn(ax_argument); read both back.
+    given=True: ax=target, the OTHER axes is pyplot's current one; given="current": ax=target and target IS pyplot's
+    current axes; given=False: ax=None (target = pyplot's current axes)"""
     matplotlib, plt = _plt()
     fig, (a, b) = plt.subplots(1, 2)
     try:
-        plt.sca(b)
+        plt.sca(a if given == "current" else b)
         target, other = (a, b) if given else (b, a)
         with warnings.catch_warnings(record=True) as w, np.errstate(all="ignore"):
             warnings.simplefilter("always")
@@ -179,7 +191,7 @@ def split_model(artists, given):
     """model artists -> (on target, on other); `current` is the other axes iff an ax was given"""
     tgt, oth = [], []
     for a in artists:
-        (tgt if (a[1] == "given" or not given) else oth).append(a)
+        (tgt if (a[1] == "given" or given is not True) else oth).append(a)      # given == "current": current IS the given axes
     return tgt, oth
 
 
@@ -247,7 +259,10 @@ def py_index(seq, i):
 
 def clauses_dgms(case, status, tgt, oth):
     """the statement's clauses for a diagram plot, evaluated on the read-back artists (no model).
-    Returns a list of failed clauses; [] = the statement holds on this input (or does not speak about it)."""
+    Returns a list of failed clauses; [] = the statement holds on this input (or does not speak about it).
+    Only what the statement fixes is judged here: the texts the code chooses by itself (default legend labels H_i, the
+    infinity entry, the axis labels Birth / Death / Lifetime) and what happens on requests outside the quantifier
+    (plot_only outside the diagrams, fewer labels than diagrams) are compared with the model only."""
     dg = case["dgms"]
     po = case["plot_only"]
     if status != "ok":
@@ -269,10 +284,10 @@ def clauses_dgms(case, status, tgt, oth):
     except Exception:
         return []
     if None in idx:
-        return ["the call succeeded although plot_only indexes outside the diagrams"]
+        return []          # plot_only outside the diagrams: outside the quantifier, handling it gracefully is no failure
     lab = case["labels"]
     if lab is None:
-        labs = ["$H_{%d}$" % i for i in idx]
+        labs = None        # the default texts are the code's own choice, not "as requested"
     elif isinstance(lab, str):
         labs = [lab] * len(idx)
     else:
@@ -285,34 +300,44 @@ def clauses_dgms(case, status, tgt, oth):
     if len(tgt["scatters"]) != len(sel):
         bad.append("scatter collections on the axes: %d, plotted diagrams: %d" % (len(tgt["scatters"]), len(sel)))
         return bad
-    inflines = [l for l in tgt["lines"] if l["label"] == "$\\infty$"]
-    anyinf = any(math.isinf(p[1]) for d in sel for p in d)
-    if anyinf != (len(inflines) == 1):
-        bad.append("infinity line present=%d but infinite deaths=%s" % (len(inflines), anyinf))
-    binf = None
     (xlo, xhi), (ylo, yhi) = sorted(tgt["xlim"]), sorted(tgt["ylim"])
-    if inflines:
-        l = inflines[0]
-        binf = l["ys"][0]
-        if not (len(l["ys"]) == 2 and l["ys"][0] == l["ys"][1]):
-            bad.append("infinity line is not horizontal")
+    allv = [abs(v) for d in sel for p in d for v in p if math.isfinite(v)]
+    S = max(allv + [abs(v) for v in tgt["xlim"] + tgt["ylim"]] + [1e-300])      # the figure's scale: limits, infinity line
+    # infinite deaths: all drawn at ONE height, on a horizontal line that is drawn, strictly inside the y limits (the line
+    # is recognised by where it is, not by its label or style)
+    inf_ys = [q[1] for d, sc in zip(sel, tgt["scatters"]) if len(sc["pts"]) == len(d)
+              for p, q in zip(d, sc["pts"]) if math.isinf(p[1])]
+    binf = None
+    if inf_ys:
+        binf = inf_ys[0]
+        if any(not near(y, binf, S) for y in inf_ys):
+            bad.append("infinite deaths are drawn at different heights %r" % sorted(set(inf_ys)))
+        elif not any(len(l["ys"]) >= 2 and all(near(y, binf, S) for y in l["ys"])
+                     for l in tgt["lines"]):
+            bad.append("infinite deaths are drawn at height %r but no horizontal line is drawn there" % binf)
         if yhi > ylo and not (ylo < binf < yhi):
             bad.append("infinity line y=%r not strictly inside the y limits %r" % (binf, tgt["ylim"]))
-    allv = [abs(v) for d in sel for p in d for v in p if math.isfinite(v)]
-    S = max(allv + [abs(v) for v in tgt["xlim"] + tgt["ylim"]] + [1e-300])
     for k, (d, sc) in enumerate(zip(sel, tgt["scatters"])):
         if len(sc["pts"]) != len(d):
             bad.append("scatter %d has %d points, diagram has %d" % (k, len(sc["pts"]), len(d)))
             continue
         for p, q in zip(d, sc["pts"]):
-            ex = [f32(p[0]), (binf if math.isinf(p[1]) else (f32(p[1]) - f32(p[0]) if life else f32(p[1])))]
-            if ex[1] is None or not (near(ex[0], q[0], S) and near(ex[1], q[1], S)):
-                bad.append("scatter %d draws %r for the point %r (expected %r)" % (k, q, p, ex))
+            # "to single precision": relative to the size of the coordinate itself (birth; death; in lifetime mode the
+            # difference of two single-precision numbers, so relative to |birth| + |death|), not to the figure's scale
+            okx = near(f32(p[0]), q[0], abs(p[0]))
+            if math.isinf(p[1]):
+                ex1, oky = binf, near(binf, q[1], S)
+            elif life:
+                ex1 = f32(p[1]) - f32(p[0]); oky = near(ex1, q[1], abs(p[0]) + abs(p[1]))
+            else:
+                ex1 = f32(p[1]); oky = near(ex1, q[1], abs(p[1]))
+            if not (okx and oky):
+                bad.append("scatter %d draws %r for the point %r (expected %r)" % (k, q, p, [f32(p[0]), ex1]))
             elif case["xy_range"] is None and math.isfinite(p[1]) and (not life or p[0] <= p[1]):
                 eps = TOL * S
                 if not (xlo - eps <= q[0] <= xhi + eps and ylo - eps <= q[1] <= yhi + eps):
                     bad.append("finite point %r drawn at %r outside the limits %r %r" % (p, q, tgt["xlim"], tgt["ylim"]))
-        if sc["label"] != labs[k]:
+        if labs is not None and sc["label"] != labs[k]:
             bad.append("scatter %d is labelled %r, requested %r" % (k, sc["label"], labs[k]))
     if case["xy_range"] is not None:
         a, b, c, d = case["xy_range"]
@@ -322,20 +347,17 @@ def clauses_dgms(case, status, tgt, oth):
             bad.append("y limits %r, requested %r" % (tgt["ylim"], [c, d]))
     if tgt["title"] != (case["title"] or ""):
         bad.append("title %r, requested %r" % (tgt["title"], case["title"]))
-    if tgt["xlabel"] != "Birth" or tgt["ylabel"] != ("Lifetime" if life else "Death"):
-        bad.append("axis labels %r" % ((tgt["xlabel"], tgt["ylabel"]),))
-    # legend: drawn iff requested; an infinity entry iff some plotted death is infinite; one entry per scatter, in the
-    # order of the scatters, with the requested text.  WHERE the infinity entry stands among them is not part of the
-    # statement (it follows the order of the ax.plot / ax.scatter calls; the correspondence compares it exactly)
+    # legend "as requested": drawn iff requested; with labels supplied by the caller, one entry per scatter with the
+    # requested text, in the order of the scatters.  Further entries (the infinity line's), their text and where they
+    # stand are not part of the statement (the correspondence compares the whole legend exactly).
     if (tgt["legend"] is not None) != bool(case["legend"]):
         bad.append("legend %s, requested legend=%r" % ("absent" if tgt["legend"] is None else "drawn", case["legend"]))
-    elif tgt["legend"] is not None and "$\\infty$" not in labs:
-        n_inf = tgt["legend"].count("$\\infty$")
-        entries = [e for e in tgt["legend"] if e != "$\\infty$"]
-        if n_inf != (1 if anyinf else 0):
-            bad.append("legend %r: %d infinity entries, infinite deaths plotted: %s" % (tgt["legend"], n_inf, anyinf))
-        elif entries != labs:
-            bad.append("legend entries %r, requested one per scatter: %r" % (tgt["legend"], labs))
+    elif tgt["legend"] is not None and labs is not None:
+        it = iter(tgt["legend"])
+        if not all(any(e == want for e in it) for want in labs):
+            bad.append("legend entries %r do not contain the requested labels %r in order" % (tgt["legend"], labs))
+    elif tgt["legend"] is not None and len(tgt["legend"]) < len(sel):
+        bad.append("legend has %d entries for %d plotted diagrams" % (len(tgt["legend"]), len(sel)))
     if case["given"] and not pristine(oth):
         bad.append("artists or settings landed on the axes that was NOT given")
     return bad
@@ -363,7 +385,23 @@ def expected_segments(case):
     return segs
 
 
+def seg_is(l, xs, ys):
+    """the read-back line `l` joins (xs[0], ys[0]) and (xs[1], ys[1]), in either direction"""
+    if len(l["xs"]) != 2 or len(l["ys"]) != 2:
+        return False
+    a, b = (l["xs"][0], l["ys"][0]), (l["xs"][1], l["ys"][1])
+    p, q = (xs[0], ys[0]), (xs[1], ys[1])
+    # the foot's size is that of the point it belongs to: use the larger of the two end points' sizes for both ends
+    sc = max(abs(p[0]) + abs(p[1]), abs(q[0]) + abs(q[1]))
+    eq = lambda u, v: near(u[0], v[0], sc) and near(u[1], v[1], sc)
+    return (eq(a, p) and eq(b, q)) or (eq(a, q) and eq(b, p))
+
+
 def clauses_match(case, status, tgt, oth):
+    """the statement's clauses for a matching plot on the read-back artists.  Segments are recognised by WHERE they are:
+    every row that is not (-1,-1) needs its own line with the right end points, and no further line may join a point of
+    one diagram to a point of the other or to its own foot on the diagonal.  Any other line on the axes (diagonal, infinity
+    line, decoration) is not counted, whatever its style."""
     if status != "ok":
         try:
             expected_segments(case)
@@ -375,51 +413,68 @@ def clauses_match(case, status, tgt, oth):
     try:
         segs = expected_segments(case)
     except IndexError:
-        return ["the call succeeded although a row indexes outside the diagrams"]
+        return []          # a row indexes outside the diagrams: outside the quantifier, graceful handling is no failure
     bad = []
     if case["given"] and not pristine(oth):
         bad.append("artists landed on the axes that was NOT given (%d lines there)" % len(oth["lines"]))
-    guides = [l for l in tgt["lines"] if l["label"] == "$\\infty$"
-              or (l["xs"] == l["ys"] and l["ls"] == "--" and l["lw"] not in (1.0, 2.0) and l["color"] == "#000000")]
-    rest = [l for l in tgt["lines"] if not any(l is g for g in guides)]
-    if len(rest) != len(segs):
-        bad.append("%d segments on the given axes for %d rows that are not (-1,-1)" % (len(rest), len(segs)))
-    S = max([abs(v) for d in (case["d1"], case["d2"]) for p in d for v in p if math.isfinite(v)] + [1e-300])
-    used = [False] * len(rest)
+    lines = tgt["lines"]
+    used = [False] * len(lines)
     found = {}
     for (k, xs, ys) in segs:
-        for n, l in enumerate(rest):
-            if not used[n] and near_list(xs, l["xs"], S) and near_list(ys, l["ys"], S):
+        for n, l in enumerate(lines):
+            if not used[n] and seg_is(l, xs, ys):
                 used[n] = True
                 found[k] = l
                 break
         else:
-            if len(rest) == len(segs):
-                bad.append("no segment joins %r-%r for row %d" % (list(zip(xs, ys))[0], list(zip(xs, ys))[1], k))
+            bad.append("no segment joins %r-%r for row %d" % (list(zip(xs, ys))[0], list(zip(xs, ys))[1], k))
+    # "ONE segment per matched pair": an unclaimed line that looks like a matching segment belongs to no row
+    f1 = [p for p in case["d1"] if math.isfinite(p[1])]
+    f2 = [p for p in case["d2"] if math.isfinite(p[1])]
+    cands = [([p[0], q[0]], [p[1], q[1]]) for p in f1 for q in f2] + \
+            [([p[0], (p[0] + p[1]) / 2.0], [p[1], (p[0] + p[1]) / 2.0]) for p in f1 + f2 if p[0] != p[1]]
+    for n, l in enumerate(lines):
+        if used[n] or len(l["xs"]) != 2 or l["xs"] == l["ys"]:
+            continue                       # claimed by a row / not a segment / lies on the diagonal (the diagonal itself)
+        if any(seg_is(l, xs, ys) for xs, ys in cands):
+            bad.append("a segment %r-%r is drawn that belongs to no row of the matching (or to a row twice)"
+                       % ((l["xs"][0], l["ys"][0]), (l["xs"][1], l["ys"][1])))
     if case["kind"] == "bn" and case["rows"] and not bad:
+        # "marks the bottleneck pair distinctly": SOME row of maximal cost carries a style that no row of smaller cost has.
+        # Which of several rows tied at the maximum is marked - one, some or all - is not fixed by the statement.
         dcol = [r[2] for r in case["rows"]]
-        kmax = dcol.index(max(dcol))
+        top = [k for k in range(len(dcol)) if dcol[k] == max(dcol)]
         sty = lambda l: (l["ls"], l["lw"], l["color"])
-        if kmax in found:
-            if any(sty(found[k]) == sty(found[kmax]) for k in found if k != kmax):
-                bad.append("the bottleneck row %d is not styled distinctly" % kmax)
-        if len({sty(found[k]) for k in found if k != kmax}) > 1:
-            bad.append("non-bottleneck rows are styled differently from each other")
+        if all(k in found for k in top):         # (a maximal row (-1,-1) draws nothing: it may be the marked one)
+            lower = [k for k in found if dcol[k] < max(dcol)]
+            if lower and not any(all(sty(found[t]) != sty(found[k]) for k in lower) for t in top):
+                bad.append("no row of maximal cost (rows %r) is styled distinctly from the rows of smaller cost" % (top,))
     if len(tgt["scatters"]) != 2:
         bad.append("%d scatter collections, expected the two diagrams" % len(tgt["scatters"]))
     else:
         # the scatter plot still shows ALL points of a non-empty diagram, infinite deaths on the infinity line
+        inf_ys = []
         for k, d in enumerate((case["d1"], case["d2"])):
             if d and len(tgt["scatters"][k]["pts"]) != len(d):
                 bad.append("scatter %d shows %d points, the diagram has %d" % (k, len(tgt["scatters"][k]["pts"]), len(d)))
-        anyinf = any(math.isinf(p[1]) for d in (case["d1"], case["d2"]) for p in d)
-        n_inflines = len([l for l in tgt["lines"] if l["label"] == "$\\infty$"])
-        if anyinf != (n_inflines == 1):
-            bad.append("%d infinity lines, infinite deaths present: %s" % (n_inflines, anyinf))
+            elif d:
+                inf_ys += [q[1] for p, q in zip(d, tgt["scatters"][k]["pts"]) if math.isinf(p[1])]
+        if inf_ys:
+            S = max([abs(v) for v in tgt["xlim"] + tgt["ylim"]] + [1e-300])
+            if any(not near(y, inf_ys[0], S) for y in inf_ys) or not any(
+                    len(l["ys"]) >= 2 and all(near(y, inf_ys[0], S) for y in l["ys"]) for l in lines):
+                bad.append("infinite deaths are not drawn on one horizontal line that is itself drawn (heights %r)" % sorted(set(inf_ys)))
     return bad
 
 
 # ----------------------------------------------------------------------------- generators
+
+def gen_given(r):
+    """how the target axes is supplied: True = ax given, the OTHER axes is pyplot's current one; "current" = ax given and
+    it IS pyplot's current axes; False = ax=None (pyplot's current axes is the target)"""
+    u = r.random()
+    return True if u < 0.55 else ("current" if u < 0.72 else False)
+
 
 def gen_dgm(ctx, nmax=6, inf_p=0.2, mode=None):
     d = ctx.gen.diagram(nmax, mode=mode)
@@ -473,7 +528,7 @@ def gen_dgms_case(ctx):
     single = n == 1 and r.random() < 0.5
     return {"op": "dgms", "dgms": dgms, "single": single, "plot_only": po, "labels": labels, "title": title,
             "xy_range": xy, "xy_empty": xy_empty, "diagonal": r.random() < 0.6, "lifetime": r.random() < 0.4,
-            "legend": r.random() < 0.6, "given": r.random() < 0.7,
+            "legend": r.random() < 0.6, "given": gen_given(r),
             "ax_color": r.choice(["k", "k", "r", [0.2, 0.4, 0.6]]), "size": r.choice([20, 20, 5, 40]),
             "colormap": r.choice(["default"] * 8 + ["classic", "ggplot"])}
 
@@ -596,7 +651,7 @@ def gen_match_case(ctx):
         edits.append("empty")
     labels = r.choice([None, None, [r.choice(LABEL_POOL), r.choice(LABEL_POOL)]])
     return {"op": "match", "kind": kind, "src": src, "d1": d1, "d2": d2, "rows": rows, "labels": labels,
-            "given": r.random() < 0.75, "edits": edits}
+            "given": gen_given(r), "edits": edits}
 
 
 def run_match(case):
@@ -622,7 +677,7 @@ def gen_land_case(ctx):
     r = ctx.rng
     kind = r.choice(["exact", "approx"])
     from_dgms = r.random() < 0.6
-    case = {"op": "land", "kind": kind, "from_dgms": from_dgms, "given": r.random() < 0.7,
+    case = {"op": "land", "kind": kind, "from_dgms": from_dgms, "given": gen_given(r),
             "title": r.choice([None, "LS"]), "labels": r.choice([None, ["t", "value"]]),
             "alpha": r.choice([1, 0.5]), "padding": r.choice([0.1, 0.0, 0.3])}
     if from_dgms:
@@ -815,7 +870,7 @@ def run(ctx):
         status, tgt, oth, sty, _w = res
         ctx.case(case, nontrivial(case, model), sample_every=131)
         ctx.count("%s:%s" % (case["op"] if case["op"] == "dgms" else case["kind"], status if status != "ok" else "ok"))
-        ctx.count("ax:" + ("given-not-current" if case["given"] else "none-current"))
+        ctx.count("ax:" + ("given-not-current" if case["given"] is True else "given-and-current" if case["given"] else "none-current"))
         if case["op"] == "dgms":
             for key in ("lifetime", "diagonal", "legend"):
                 ctx.count("%s=%s" % (key, case[key]))
@@ -909,12 +964,14 @@ def landscapes(ctx, rs):
         ctx.count("land:%s:%s" % (case["kind"], status))
         ctx.count("land:depth_range:" + ("none" if case["depth_range"] is None else "range" if isinstance(case["depth_range"], dict) else "list"))
         diff = compare_land(model, status, tgt, oth, case["given"], sty, case)
+        # C20's statement speaks of diagram plots and matching plots; the 2-D landscape plots are tied to their model
+        # (landscape_lines_spec) and their clauses are evaluated, but a failure there is never a claimed failing input
         failed = clauses_land(case, data, ss, status, tgt, oth)
-        ctx.test("statement_clauses:land", not failed)
+        ctx.test("landscape_clauses(not in the statement):land", not failed)
         if diff or failed:
-            if not report(ctx, rs, "landscape plot: %s; statement clauses failing: %s"
+            if not report(ctx, rs, "landscape plot (not part of C20's statement: correspondence only): %s; landscape clauses failing: %s"
                           % (("code and model differ (%s)" % diff) if diff else "code and model agree", failed or "none"),
-                          case, failed, line, diff):
+                          case, [], line, diff or "; ".join(failed)):
                 return
 
 
@@ -937,7 +994,9 @@ def replay(ctx, rep):
         failed = clauses_match(case, status, tgt, oth)
     else:
         line, data, ss, (status, tgt, oth, _, _) = run_land(case)
-        failed = clauses_land(case, data, ss, status, tgt, oth)
+        print("landscape clauses (not part of C20's statement, correspondence only):",
+              clauses_land(case, data, ss, status, tgt, oth) or "none failing")
+        failed = []
     print("status:", status)
     print("target axes:", {k: v for k, v in tgt.items()})
     print("other axes pristine:", pristine(oth), "" if pristine(oth) else oth)
@@ -970,7 +1029,11 @@ MANIFEST = {
             "two-axes Agg figure (the other axes current, or ax=None) and comparing with the model run at Rat with a real "
             "round-to-nearest-even float32 cast (legend order included); the statement's clauses are additionally evaluated in plain "
             "Python on every case - there the legend is checked as 'an infinity entry iff needed + one entry per scatter with the "
-            "requested text', so a mere reordering of the plot calls is a correspondence break, not a violation.",
+            "requested text', so a mere reordering of the plot calls is a correspondence break, not a violation. The clauses judge only "
+            "what the statement fixes (see the module docstring): with several rows tied at the maximal cost any or all of them may carry "
+            "the distinct style, segments are recognised by their end points rather than by style, per-coordinate single-precision "
+            "tolerance; literal texts chosen by the code, success on out-of-range plot_only / rows and the landscape plots (not in the "
+            "statement) are correspondence-only. The case 'the supplied axes is pyplot's current one' is generated as well.",
     "note": "Trusted: Lean kernel + Mathlib, axioms propext/Classical.choice/Quot.sound; the correspondence harness; matplotlib as a "
             "contract (an artist added to an Axes is drawn there; Axes.legend lists labelled artists in insertion order; set_xlim "
             "stores its arguments unless they coincide). Not modelled: the 3-D landscape plots, colormap/style side effects "
